@@ -81,6 +81,7 @@ pub fn gen(app: App, flavor: Flavor, over_tcp: bool, rng: &mut Rng) -> Vec<u8> {
             v
         }
         (App::Ghost, _) => ghost::gen_request(rng),
+        (App::Stun, Flavor::Valid) if rng.chance(1, 16) => polyglot_stun_dns(rng),
         (App::Stun, Flavor::Valid) => stun::gen_binding_request(rng),
         (App::Stun, Flavor::Fault) if rng.chance(1, 3) => {
             // one of the cookie-less (end-anchored) forms followed by trailing bytes: it completes
@@ -97,6 +98,7 @@ pub fn gen(app: App, flavor: Flavor, over_tcp: bool, rng: &mut Rng) -> Vec<u8> {
         }
         (App::Stun, Flavor::Fault) | (App::Stun, Flavor::ResponseTyped) => stun::gen_non_request(rng),
         (App::Stun, Flavor::Hostile) => stun::gen_hostile(rng),
+        (App::Dns, Flavor::Valid) if rng.chance(1, 16) => polyglot_stun_dns(rng),
         (App::Dns, Flavor::Valid) => dns::gen_in_a_query(rng),
         (App::Dns, Flavor::Fault) => dns::gen_fault(rng),
         (App::Dns, Flavor::ResponseTyped) => dns::gen_response(rng),
@@ -221,4 +223,15 @@ pub fn mutate(v: &mut Vec<u8>, rng: &mut Rng) {
             _ => v[i] = *rng.pick(&[0u8, 0xff, 0x7f, 0x80, b'\r', b'\n', b' ', b'*']),
         }
     }
+}
+
+/// Twenty bytes that are both a cookie-less, attribute-less STUN binding request (published
+/// end-anchored form) and a DNS query with one IN/A question for a two-octet name: the
+/// signature decides (C10), whatever port the datagram is sent to (C19).
+pub fn polyglot_stun_dns(rng: &mut Rng) -> Vec<u8> {
+    let mut v = vec![0, 1, 0, 0, 0, 1, 0, 0, 0, 0, 0, 0, 2];
+    v.push(*rng.pick(b"abcdefghijklmnopqrstuvwxyz0123456789"));
+    v.push(*rng.pick(b"abcdefghijklmnopqrstuvwxyz0123456789"));
+    v.extend_from_slice(&[0, 0, 1, 0, 1]);
+    v
 }
